@@ -500,11 +500,74 @@ else:
             "a zero step is not rejected when the slice is built")
 
 
+SHAPE_MODULES = ["pytato.utils", "pytato.array", "pytato.reductions", "pytato.cmath",
+                 "pytato.pad"]
+
+
+def r_fold(c):
+    """accumulating loops in shape inference read the accumulator, not its stale
+    initial value; repeated list.insert runs over ascending positions"""
+    m = c.model
+    n_fold = n_ins = 0
+    for mi, fd in m.all_functions(modules=[x for x in SHAPE_MODULES if x in m.modules]):
+        qn = m.qualname(fd).replace("pytato.", "", 1)
+        body = fd.body
+        for i, st in enumerate(body):
+            # acc = <init>   (init is a subscript/attribute expression, e.g. xs[0])
+            if not (isinstance(st, (ast.Assign, ast.AnnAssign)) and st.value is not None):
+                continue
+            tg = st.targets[0] if isinstance(st, ast.Assign) else st.target
+            if not isinstance(tg, ast.Name) or not isinstance(st.value, ast.Subscript):
+                continue
+            acc, init = tg.id, ast.unparse(st.value)
+            for loop in body[i + 1:]:
+                if not isinstance(loop, ast.For):
+                    continue
+                reassigned = any(isinstance(x, ast.Assign) and any(
+                    isinstance(t, ast.Name) and t.id == acc for t in x.targets)
+                    for x in ast.walk(loop))
+                if not reassigned:
+                    continue
+                n_fold += 1
+                stale = [x for b in loop.body for x in ast.walk(b)
+                         if isinstance(x, ast.Subscript) and ast.unparse(x) == init]
+                c.check(not stale, "R03-FOLD", qn, f"{acc}:loop-reads-the-accumulator",
+                        m.loc(mi, loop),
+                        f"`{acc}` starts as `{init}` and is updated in the loop, but the "
+                        f"loop body still reads `{init}`: after the first update the "
+                        "decision is taken on a stale value (e.g. broadcasting three "
+                        "operands accepts incompatible lengths)")
+        # repeated insert: `for p in <positions>: L.insert(p, v)`
+        for loop in ast.walk(fd):
+            if not (isinstance(loop, ast.For) and isinstance(loop.target, ast.Name)):
+                continue
+            ins = [x for b in loop.body for x in ast.walk(b) if isinstance(x, ast.Call)
+                   and isinstance(x.func, ast.Attribute) and x.func.attr == "insert"
+                   and x.args and isinstance(x.args[0], ast.Name)
+                   and x.args[0].id == loop.target.id]
+            if not ins:
+                continue
+            n_ins += 1
+            it = loop.iter
+            asc = isinstance(it, ast.Call) and isinstance(it.func, ast.Name) and (
+                it.func.id == "sorted" and not any(
+                    k.arg == "reverse" and ast.unparse(k.value) != "False" for k in it.keywords)
+                or it.func.id == "range")
+            c.check(asc, "R03-FOLD", qn, f"{loop.target.id}:inserts-in-ascending-order",
+                    m.loc(mi, loop),
+                    f"`{m.frag(ins[0], 40)}` is repeated for the positions "
+                    f"`{m.frag(it, 40)}`, which are not visited in ascending order: an "
+                    "insertion shifts the later positions, so the new axes end up in the "
+                    "wrong places (np.expand_dims(a, (1, 0)))")
+    if n_fold < 1 or n_ins < 1:
+        raise AnalysisError(f"fold/insert anchors vanished (folds={n_fold}, inserts={n_ins})")
+
+
 SPEC = Spec(
     prop="C03",
-    rules=[r_eager, r_axis, r_splice, r_operators, r_slice],
+    rules=[r_eager, r_axis, r_splice, r_operators, r_slice, r_fold],
     floors={"R03-EAGER": 70, "R03-AXIS": 15, "R03-SPLICE": 3, "R03-OPERATORS": 40,
-            "R03-SLICE": 5},
+            "R03-SLICE": 5, "R03-FOLD": 2},
     explanation=(
         "Decides two clauses; the agreement of inferred shapes/dtypes with NumPy's "
         "value-level behaviour is NOT decided. R03-EAGER: for every concrete array "
